@@ -334,10 +334,10 @@ def main():
     reported = 0
     seen_sig = set()
     # concrete failures of the property first, broken correspondence last
-    div_found.sort(key=lambda d: {"spec": 0, "crash": 1}.get(d.kind, 2))
+    div_found.sort(key=lambda d: {"spec": 0, "crash": 1}.get(d.kind, 2 if d.kind.startswith("known:") else 3))
     if any(d.kind in ("spec", "crash") for d in div_found):
         # the search found failing inputs: the correspondence breaks are explained by them
-        div_found = [d for d in div_found if d.kind in ("spec", "crash")]
+        div_found = [d for d in div_found if d.kind in ("spec", "crash") or d.kind.startswith("known:")]
     for d in div_found:
         if reported >= 5:
             break
@@ -345,6 +345,13 @@ def main():
             for t in d.tags:
                 known_seen[t] = known_tags[t]
             continue
+        if d.kind.startswith("known:"):
+            # the property module recognised the input class of a recorded finding (by construction of the input)
+            tag = d.kind[6:]
+            if tag in known_tags and d.impl == d.model:
+                known_seen[tag] = known_tags[tag]
+                continue
+            d.kind = "spec"
         sig = (d.kind, tuple(sorted(d.tags)), d.detail[:60])
         if sig in seen_sig:
             continue
